@@ -127,7 +127,8 @@ def run(F, res, tier):
     find_def = F.fn(c08.FIND_DEF)
     for name in (c08.RENAME, c08.PREPARE):
         fn = F.fn(name)
-        gs = FL.gates(F, fn, FL.ok_blocks(fn))
+        # gates of the entry point, with helpers of the rename module expanded (a shared `find_local_def`)
+        gs = c08.gate_set(F, fn, FL.ok_blocks(fn))
         left = [g for g in gs if g.get("callee") == c08.FIND_DEF and g["allowed"] == ["Left"]]
         res.ob("N3", "%s/alias-gate" % name.rsplit("::", 1)[-1], "%s succeeds only when find_def returned Left (not the alias refusal)" % name.rsplit("::", 1)[-1],
                bool(left), where=fn.loc(), how="gates %s" % [FL.gate_summary(g) for g in gs][:6])
